@@ -18,11 +18,11 @@ CONDS = [
          'sibling layouts: all sequences over {li, li.x, p, p.x, text, comment} up to length 3 (quick) / 5 (thorough) '
          'and over {li, p, text} up to length 4 / 8; containers: <ul> in HTML doc (all layouts); document top level, '
          'detached <ul>, <ul> in XML doc (layouts up to length 3 / 4); body runs natively once the solver has fixed the indices',
-         timeout={'quick': 100, 'thorough': 900}, parts={'quick': 10, 'thorough': 16}),
+         timeout={'quick': 100, 'thorough': 900}, parts={'quick': 6, 'thorough': 12}),
     Cond('nth_pairs_ok', 'two positional pseudo-classes on one compound (child / of-type / "of .x", either direction each): '
          'match_nth(el, (n1, n2)) == both reference positions hit, for all position pairs (p, q)',
          'same layout/container pool; 6 mode pairs x 4 direction pairs', timeout={'quick': 100, 'thorough': 900},
-         parts={'quick': 6, 'thorough': 12}),
+         parts={'quick': 4, 'thorough': 8}),
     Cond('nth_comment_spelling_ok', 'An+B spellings with comments and mixed whitespace around the sign, keyword case, through '
          'the real compile(): IR (a, b), of_type, last, of-S as the reference says', '14 spellings x 5 names x with/without of S',
          timeout={'quick': 60, 'thorough': 120}),
@@ -31,12 +31,12 @@ CONDS = [
     Cond('nth_parse_ok',
          'real CSSParser.parse_pseudo_nth on every valid An+B spelling s == reference An+B parser (a, n, b, of_type, last)',
          'len(s) <= 3 quick / 6 thorough over the alphabet "0-9 n N + - space"; four pseudo-class names',
-         timeout={'quick': 100, 'thorough': 600}, parts={'quick': 4, 'thorough': 4}),
+         timeout={'quick': 100, 'thorough': 600}, parts={'quick': 2, 'thorough': 4}),
     Cond('nth_keywords_ok',
          ':first-child, :last-child, :only-child, :first/last/only-of-type select (real select()) exactly what their '
          'An+B instances select and what the reference position designates',
          'same layout pool; containers <ul> and document top level', timeout={'quick': 60, 'thorough': 600},
-         parts={'quick': 6, 'thorough': 12}),
+         parts={'quick': 3, 'thorough': 8}),
 ]
 
 
